@@ -8,7 +8,7 @@
    [file_roundtrip]: for every derivable file, parse_gold (memoisation off, any fuel above the
    derivation level) returns the root with exactly the derived declarations, consumes every token
    and reports no diagnostic.  FileRT.v lifts this to parse_gold itself. *)
-From GoldV Require Import Base Tokens Lexer AstKinds Tree Strings PComb Grammar Ladder RTComb LadderProofs ExprRT TypeRT StmtRT.
+From GoldV Require Import Base Tokens Lexer AstKinds Tree Strings PComb Grammar Ladder RTComb LadderProofs ExprRT TypeRT OqlRT StmtRT.
 From Coq Require Import Lia.
 
 (* ---------- node builders ---------- *)
@@ -149,6 +149,22 @@ Proof.
     cbv beta iota. apply Parses_ret.
 Qed.
 
+Definition annot_inner (body : list tok) : Prop :=
+  Forall (fun t => existsb (tt_eqb (tty t)) [TCSqrBracket; TProc; TFunc; TEndProc; TEndFunc; TEnd] = false) body.
+
+Lemma annot_some_parses o body c r : tty o = TOSqrBracket -> annot_inner body -> tty c = TCSqrBracket ->
+  Parses parse_annotations (o :: body ++ c :: r) r mk_empty_default.
+Proof.
+  intros Ho Hb Hc. unfold parse_annotations. eapply Parses_bind; [apply exp_token_ok; exact Ho|]. cbv beta.
+  eapply Parses_bind.
+  { apply Parses_opt_some. unfold annotation_body. eapply Parses_bind.
+    - apply take_until_ok.
+      + exact Hb.
+      + cbn [existsb]. rewrite Hc. reflexivity.
+    - cbv beta. cbn [snd]. rewrite Hc. cbn [tt_eqb]. apply Parses_ret. }
+  cbv beta iota. apply Parses_ret.
+Qed.
+
 (* the head of  ats ++ r  when r starts with a token of a type in S *)
 Lemma annot_head X S ats t r : Annot ats -> In (tty t) S -> disj_b (TOSqrBracket :: S) (TComment :: X) = true ->
   nostart X (ats ++ t :: r).
@@ -251,6 +267,15 @@ Section Top.
   Definition mem_ok (mem : option tok) : Prop := match mem with Some m => tty m = TMemory | None => True end.
   Definition ml_ok (ml : option tok) : Prop := match ml with Some m => tty m = TMultiLang | None => True end.
 
+  (* the declarations an annotation attaches to (besides fields): class, module, type declaration *)
+  Inductive Host : list tok -> node -> Prop :=
+  | H_class ct nt : tty ct = TClass -> tty nt = TIdentifier -> Host [ct; nt] (mk_class ct nt None)
+  | H_classp ct nt o p c : tty ct = TClass -> tty nt = TIdentifier -> tty o = TOBracket -> tty p = TIdentifier ->
+      tty c = TCBracket -> Host [ct; nt; o; p; c] (mk_class ct nt (Some (p, c)))
+  | H_module mt nm : tty mt = TModule -> tty nm = TIdentifier -> Host [mt; nm] (mk_module mt nm)
+  | H_typedecl tk id col tts tn : tty tk = TType -> tty id = TIdentifier -> tty col = TColon -> GType (S fuel) tts tn ->
+      Host (tk :: id :: col :: tts) (mk_type_decl tk id tn).
+
   Inductive Decl : list tok -> node -> Prop :=
   | D_class ct nt : tty ct = TClass -> tty nt = TIdentifier -> Decl [ct; nt] (mk_class ct nt None)
   | D_classp ct nt o p c : tty ct = TClass -> tty nt = TIdentifier -> tty o = TOBracket -> tty p = TIdentifier ->
@@ -279,7 +304,10 @@ Section Top.
       Decl (ft :: nts ++ pts ++ rk :: rt :: mts ++ body ++ [e]) (mk_func_node ft name ps rt (method_mods_info mrs) (Some (body, ns, e)))
   | D_func_nobody ft nts name pts ps rk rt mts mrs : tty ft = TFunc -> MName nts name -> GParams (S fuel) pts ps ->
       tty rk = TReturn -> tty rt = TIdentifier -> Mods mts mrs -> has_method_body (method_mods_info mrs) = false ->
-      Decl (ft :: nts ++ pts ++ rk :: rt :: mts) (mk_func_node ft name ps rt (method_mods_info mrs) None).
+      Decl (ft :: nts ++ pts ++ rk :: rt :: mts) (mk_func_node ft name ps rt (method_mods_info mrs) None)
+  (* [ annotation ] class / module / type declaration: the annotation leaves no node *)
+  | D_annotated o abody c ts n : tty o = TOSqrBracket -> annot_inner abody -> tty c = TCSqrBracket -> Host ts n ->
+      Decl (o :: abody ++ c :: ts) n.
 
   (* the forms of the first version of this file, as derived rules *)
   Lemma D_const ct id eq v : tty ct = TConst -> tty id = TIdentifier -> tty eq = TEquals ->
@@ -313,7 +341,13 @@ Section Top.
   (* a file: declarations one after the other *)
   Inductive Decls : list tok -> list node -> Prop :=
   | Ds_nil : Decls [] []
-  | Ds_cons ts n ts' ns : Decl ts n -> Decls ts' ns -> dfollow_ok ts (hd_ty ts') -> Decls (ts ++ ts') (n :: ns).
+  | Ds_cons ts n ts' ns : Decl ts n -> Decls ts' ns -> dfollow_ok ts (hd_ty ts') -> Decls (ts ++ ts') (n :: ns)
+  (* an annotation in front of anything that is neither a field nor a class / module / type declaration (a method, a
+     constant, a uses list, another annotation, the end of the file) is a declaration of its own: the code ignores it
+     and leaves an empty node (AstEmpty, default range) among the root's children *)
+  | Ds_annot o abody c ts' ns : tty o = TOSqrBracket -> annot_inner abody -> tty c = TCSqrBracket ->
+      nostart [TClass; TModule; TType; TMemory; TIdentifier] ts' -> Decls ts' ns ->
+      Decls (o :: abody ++ c :: ts') (mk_empty_default :: ns).
 
   (* ---------- method bodies ---------- *)
 
@@ -333,8 +367,8 @@ Section Top.
     eapply Parses_bind; [apply Parses_with_ctx_clear|]. cbv beta.
     eapply Parses_bind.
     { eapply (repeat_chain _ (fail [])).
-      - pose proof (Seq_chain (S fuel) (GStmt (S fuel)) (gram_stmt_rt (S fuel)) (GStmt_head (S fuel))
-                      (fail []) [] None (first :: body') ns [] Hseq eq_refl) as Hch.
+      - pose proof (Seq_chain (S fuel) (GStmt (S fuel)) (gram_stmt_rt (S fuel)) (GStmt_head (S fuel)) (GStmt_j (S fuel))
+                      (fail []) [] None (first :: body') ns [] Hseq eq_refl jfollow_nil) as Hch.
         rewrite app_nil_r in Hch. apply Hch.
         + intros j _. eapply FailsAt_Fails. apply FailsAt_fail.
         + reflexivity.
@@ -435,6 +469,89 @@ Section Top.
   Lemma comment_fails' t r : tty t <> TComment -> Fails parse_comment (t :: r).
   Proof. intro H. unfold parse_comment. apply Fails_bind_l. eapply FailsAt_Fails. apply exp_comment_fail. exact H. Qed.
 
+  Lemma globalvar_fails ats r : Annot ats -> (ats = [] -> nostart [TOSqrBracket] r) -> nostart [TMemory; TIdentifier] r ->
+    Fails (parse_global_variable_declaration g) (ats ++ r).
+  Proof.
+    intros Ha Hr H. unfold parse_global_variable_declaration. destruct (annot_parses ats r Ha Hr) as [v Hv].
+    eapply Fails_bind_r; [exact Hv|]. cbv beta.
+    eapply Fails_bind_r; [apply Parses_rae_none; apply exp_token_nostart; [discriminate|sub_nostart H]|]. cbv beta.
+    apply Fails_bind_l. eapply FailsAt_Fails. apply exp_token_nostart; [discriminate|sub_nostart H].
+  Qed.
+
+  Lemma Host_first ts n : Host ts n -> exists t r, ts = t :: r /\ In (tty t) [TClass; TModule; TType].
+  Proof. intro H. destruct H; eexists _, _; (split; [reflexivity|]); simpl; intuition. Qed.
+
+  (* class / module / type declaration behind an optional annotation *)
+  Lemma host_step ats ts n more : Annot ats -> Host ts n -> dfollow_h (hd_ty more) -> TopStep (ats ++ ts ++ more) more n.
+  Proof.
+    intros Ha Hh Hfo. right.
+    destruct (Host_first _ _ Hh) as (t0 & r0 & E0 & Ht0).
+    assert (forall X, disj_b [TOSqrBracket; TClass; TModule; TType] (TComment :: X) = true -> nostart X (ats ++ ts ++ more)) as Hall.
+    { intros X Hd. rewrite E0. cbn [app]. eapply annot_head; [exact Ha|exact Ht0|exact Hd]. }
+    assert (ats = [] -> nostart [TOSqrBracket] (ts ++ more)) as Hna.
+    { intros _. rewrite E0. cbn [app]. eapply starts_nostart; [exact Ht0|reflexivity]. }
+    split; [apply top_blocks_fail; apply Hall; reflexivity|]. unfold top_decl_parsers, alt.
+    apply alt_go_skip.
+    { destruct Ha as [|o body c Ho _ _]; cbn [app].
+      - rewrite E0. cbn [app]. apply comment_fails'. intro X. rewrite X in Ht0. simpl in Ht0. intuition discriminate.
+      - apply comment_fails'. rewrite Ho. discriminate. }
+    intro b1. destruct (annot_parses ats _ Ha Hna) as [av Hav].
+    destruct Hh as [ct nt Hct Hnt|ct nt o p c Hct Hnt Ho Hp Hc|mt nm Hmt Hnm|tk id col tts tn Htk Hid Hcol Hty]; cbn [app] in *.
+    - apply alt_go_here. unfold parse_class. eapply Parses_bind; [exact Hav|]. cbv beta.
+      eapply Parses_bind; [apply exp_token_ok; exact Hct|]. cbv beta.
+      eapply Parses_bind; [apply exp_token_ok; exact Hnt|]. cbv beta.
+      eapply Parses_bind.
+      { apply Parses_opt_none. unfold parse_parent_class. apply Fails_bind_l. apply seq_tokens_fail; [discriminate|].
+        apply dfollow_nostart; [reflexivity|exact Hfo]. }
+      cbv beta iota. apply Parses_ret.
+    - apply alt_go_here. unfold parse_class. eapply Parses_bind; [exact Hav|]. cbv beta.
+      eapply Parses_bind; [apply exp_token_ok; exact Hct|]. cbv beta.
+      eapply Parses_bind; [apply exp_token_ok; exact Hnt|]. cbv beta.
+      eapply Parses_bind.
+      { apply Parses_opt_some. unfold parse_parent_class.
+        eapply Parses_bind; [apply (seq_tokens_ok _ [o; p; c] more); cbn [map]; rewrite Ho, Hp, Hc; reflexivity|].
+        cbv beta iota. apply Parses_ret. }
+      cbv beta iota. apply Parses_ret.
+    - apply (alt_go_pick [parse_class]).
+      { repeat (apply Forall_cons || apply Forall_nil).
+        apply class_fails; [exact Ha|exact Hna|eapply nostart_ty; [exact Hmt|reflexivity]]. }
+      unfold parse_module. eapply Parses_bind; [exact Hav|]. cbv beta.
+      eapply Parses_bind; [apply exp_token_ok; exact Hmt|]. cbv beta.
+      eapply Parses_bind; [apply exp_token_ok; exact Hnm|]. cbv beta. apply Parses_ret.
+    - apply (alt_go_pick [parse_class; parse_module; parse_uses]).
+      { repeat (apply Forall_cons || apply Forall_nil).
+        - apply class_fails; [exact Ha|exact Hna|eapply nostart_ty; [exact Htk|reflexivity]].
+        - apply module_fails; [exact Ha|exact Hna|eapply nostart_ty; [exact Htk|reflexivity]].
+        - apply uses_fails'. apply Hall. reflexivity. }
+      unfold parse_type_declaration. eapply Parses_bind; [exact Hav|]. cbv beta.
+      eapply Parses_bind; [apply (seq_tokens_ok _ [tk; id; col]); cbn [map]; rewrite Htk, Hid, Hcol; reflexivity|]. cbv beta iota.
+      eapply Parses_bind; [apply gram_type_rt; [exact Hty|apply dfollow_nostart; [reflexivity|exact Hfo]]|]. cbv beta. apply Parses_ret.
+  Qed.
+
+  (* an annotation on its own *)
+  Lemma annot_step o abody c r : tty o = TOSqrBracket -> annot_inner abody -> tty c = TCSqrBracket ->
+    nostart [TClass; TModule; TType; TMemory; TIdentifier] r -> TopStep (o :: abody ++ c :: r) r mk_empty_default.
+  Proof.
+    intros Ho Hb Hc Hr. right.
+    assert (forall X, mem_ty TOSqrBracket (TComment :: X) = false -> nostart X (o :: abody ++ c :: r)) as Hall
+      by (intros X Hm; eapply nostart_ty; [exact Ho|exact Hm]).
+    split; [apply top_blocks_fail; apply Hall; reflexivity|]. unfold top_decl_parsers, alt.
+    apply alt_go_skip; [apply comment_fails'; rewrite Ho; discriminate|]. intro b1.
+    pose proof (An_some o abody c Ho Hb Hc) as Ha.
+    assert (o :: abody ++ c :: r = (o :: abody ++ [c]) ++ r) as E by (cbn [app]; rewrite <- app_assoc; reflexivity).
+    assert (o :: abody ++ [c] = [] -> nostart [TOSqrBracket] r) as Hna by discriminate.
+    apply (alt_go_pick [parse_class; parse_module; parse_uses; parse_type_declaration (g_type g); parse_constant_declaration;
+                        parse_global_variable_declaration g]).
+    { repeat (apply Forall_cons || apply Forall_nil).
+      - rewrite E. apply class_fails; [exact Ha|exact Hna|sub_nostart Hr].
+      - rewrite E. apply module_fails; [exact Ha|exact Hna|sub_nostart Hr].
+      - apply uses_fails'. apply Hall. reflexivity.
+      - rewrite E. apply typedecl_fails'; [exact Ha|exact Hna|sub_nostart Hr].
+      - apply const_fails'. apply Hall. reflexivity.
+      - rewrite E. apply globalvar_fails; [exact Ha|exact Hna|sub_nostart Hr]. }
+    apply annot_some_parses; assumption.
+  Qed.
+
   Definition decl_kw : list ttype := [TProc; TFunc; TOSqrBracket; TClass; TModule; TUses; TType; TConst; TMemory].
 
   Ltac dfails Hn :=
@@ -469,7 +586,8 @@ Section Top.
                   |pt nts name pts ps mts mrs body ns e Hpt Hname Hps Hmods Hhb Hseq Hb He
                   |pt nts name pts ps mts mrs Hpt Hname Hps Hmods Hhb
                   |ft nts name pts ps rk rt mts mrs body ns e Hft Hname Hps Hrk Hrt Hmods Hhb Hseq Hb He
-                  |ft nts name pts ps rk rt mts mrs Hft Hname Hps Hrk Hrt Hmods Hhb]; cbn [app].
+                  |ft nts name pts ps rk rt mts mrs Hft Hname Hps Hrk Hrt Hmods Hhb
+                  |o abody c ts n Ho Hab Hc Hh]; cbn [app].
     - (* class X *)
       right. assert (nostart [TProc; TFunc; TOSqrBracket] (ct :: nt :: more)) as Hn by (eapply nostart_ty; [exact Hct|reflexivity]).
       split; [apply top_blocks_fail; sub_nostart Hn|]. unfold top_decl_parsers, alt.
@@ -680,6 +798,9 @@ Section Top.
       unfold mk_func_node. destruct (method_mods_info mrs) as [[[mr rr] fl]|]; cbv beta iota zeta;
         cbn [mods_end mods_flags fst snd];
         (eapply Parses_bind; [apply method_tail_nobody; exact Hhb|]); cbv beta iota; apply Parses_ret.
+    - (* [ annotation ] class / module / type declaration *)
+      pose proof (host_step (o :: abody ++ [c]) ts n more (An_some o abody c Ho Hab Hc) Hh Hfo) as X.
+      cbn [app] in X. rewrite <- app_assoc in X. cbn [app] in X. rewrite <- app_assoc. cbn [app]. exact X.
   Qed.
 
   Lemma Decl_nonempty ts n : Decl ts n -> (1 <= length ts)%nat.
@@ -690,29 +811,38 @@ Section Top.
 
   (* ---------- the top-level loop ---------- *)
 
+  Lemma top_loop_step lf whole acc i r n : i <> [] -> TopStep i r n -> forall c, cmemo c = false ->
+    exists c1, quiet c c1 /\ top_loop g (S lf) whole acc i c = top_loop g lf whole (n :: acc) r c1.
+  Proof.
+    intros Hne Hs c Hc. destruct i as [|ft il]; [congruence|]. cbn [top_loop]. destruct Hs as [Hb|[Hbf Hdp]].
+    - destruct (Hb c Hc) as (x & c1 & E1 & Q1 & ->). rewrite E1. exists c1. split; [exact Q1|reflexivity].
+    - destruct (Hbf c Hc) as (x & c1 & E1 & Q1 & be & bm & ->). rewrite E1.
+      destruct (Hdp c1 (quiet_memo _ _ Hc Q1)) as (y & c2 & E2 & Q2 & ->). rewrite E2.
+      exists c2. split; [apply (quiet_trans _ _ _ Q1 Q2)|reflexivity].
+  Qed.
+
   Lemma top_loop_decls : forall ts ns, Decls ts ns -> forall lfuel whole acc, (length ns < lfuel)%nat ->
     Parses (top_loop g lfuel whole acc) ts [] (rev acc ++ ns).
   Proof.
-    intros ts ns H. induction H as [|ts n ts' ns Hd Hds IH Hfo]; intros lfuel whole acc Hf c Hc;
-      (destruct lfuel as [|lf]; [simpl in Hf; lia|]); cbn [top_loop].
-    - eexists _, c. split; [reflexivity|]. split; [apply quiet_refl|]. rewrite app_nil_r. reflexivity.
+    intros ts ns H. induction H as [|ts n ts' ns Hd Hds IH Hfo|o abody c ts' ns Ho Hab Hc Hr Hds IH]; intros lfuel whole acc Hf c0 Hc0;
+      (destruct lfuel as [|lf]; [simpl in Hf; lia|]).
+    - cbn [top_loop]. eexists _, c0. split; [reflexivity|]. split; [apply quiet_refl|]. rewrite app_nil_r. reflexivity.
     - assert (ts ++ ts' <> []) as Hne by (pose proof (Decl_nonempty _ _ Hd); destruct ts; [simpl in *; lia|discriminate]).
-      destruct (ts ++ ts') as [|ft il] eqn:Ei; [congruence|]. rewrite <- Ei in *.
-      destruct (decl_parses ts n ts' Hd Hfo) as [Hb|[Hbf Hdp]].
-      + destruct (Hb c Hc) as (x & c1 & E1 & Q1 & ->). rewrite E1.
-        destruct (IH lf whole (n :: acc) ltac:(simpl in Hf; lia) c1 (quiet_memo _ _ Hc Q1)) as (z & c3 & E3 & Q3 & ->).
-        eexists _, c3. split; [exact E3|]. split; [apply (quiet_trans _ _ _ Q1 Q3)|]. simpl. rewrite <- app_assoc. reflexivity.
-      + destruct (Hbf c Hc) as (x & c1 & E1 & Q1 & be & bm & ->). rewrite E1.
-        destruct (Hdp c1 (quiet_memo _ _ Hc Q1)) as (y & c2 & E2 & Q2 & ->). rewrite E2.
-        pose proof (quiet_trans _ _ _ Q1 Q2) as Q12.
-        destruct (IH lf whole (n :: acc) ltac:(simpl in Hf; lia) c2 (quiet_memo _ _ Hc Q12)) as (z & c3 & E3 & Q3 & ->).
-        eexists _, c3. split; [exact E3|]. split; [apply (quiet_trans _ _ _ Q12 Q3)|]. simpl. rewrite <- app_assoc. reflexivity.
+      destruct (top_loop_step lf whole acc _ _ _ Hne (decl_parses ts n ts' Hd Hfo) c0 Hc0) as (c1 & Q1 & E). rewrite E.
+      destruct (IH lf whole (n :: acc) ltac:(simpl in Hf; lia) c1 (quiet_memo _ _ Hc0 Q1)) as (z & c3 & E3 & Q3 & ->).
+      eexists _, c3. split; [exact E3|]. split; [apply (quiet_trans _ _ _ Q1 Q3)|]. simpl. rewrite <- app_assoc. reflexivity.
+    - assert (o :: abody ++ c :: ts' <> []) as Hne by discriminate.
+      destruct (top_loop_step lf whole acc _ _ _ Hne (annot_step o abody c ts' Ho Hab Hc Hr) c0 Hc0) as (c1 & Q1 & E).
+      rewrite E.
+      destruct (IH lf whole (mk_empty_default :: acc) ltac:(simpl in Hf; lia) c1 (quiet_memo _ _ Hc0 Q1)) as (z & c3 & E3 & Q3 & ->).
+      eexists _, c3. split; [exact E3|]. split; [apply (quiet_trans _ _ _ Q1 Q3)|]. simpl. rewrite <- app_assoc. reflexivity.
   Qed.
 
   Lemma Decls_length ts ns : Decls ts ns -> (length ns <= length ts)%nat.
   Proof.
-    induction 1 as [|ts n ts' ns Hd Hds IH Hfo]; [simpl; lia|]. rewrite app_length. simpl.
-    pose proof (Decl_nonempty _ _ Hd). lia.
+    induction 1 as [|ts n ts' ns Hd Hds IH Hfo|o abody c ts' ns Ho Hab Hc Hr Hds IH]; [simpl; lia| |].
+    - rewrite app_length. simpl. pose proof (Decl_nonempty _ _ Hd). lia.
+    - simpl. rewrite app_length. simpl. lia.
   Qed.
 
   (* a derivable file parses to exactly its declarations: all tokens consumed, no diagnostics *)
@@ -747,11 +877,13 @@ Proof.
   - apply D_proc_nobody; auto.
   - apply D_func_gen; auto. eapply Seq_mono; eauto.
   - apply D_func_nobody; auto.
+  - apply D_annotated; auto. match goal with X : Host _ _ _ |- _ => destruct X end;
+      [apply H_class|apply H_classp|apply H_module|apply H_typedecl]; auto.
 Qed.
 
 Lemma Decls_mono f f' ts ns : (f <= f')%nat -> Decls f ts ns -> Decls f' ts ns.
 Proof.
-  intros Hle H. induction H; [apply Ds_nil|apply Ds_cons; auto]. eapply Decl_mono; eauto.
+  intros Hle H. induction H; [apply Ds_nil|apply Ds_cons; auto|apply Ds_annot; auto]. eapply Decl_mono; eauto.
 Qed.
 
 Theorem file_roundtrip f fuel ts ns : Decls f ts ns -> (f < fuel)%nat ->
